@@ -12,7 +12,7 @@ use std::sync::{Arc, Condvar, Mutex};
 use std::time::{Duration, Instant};
 use tracing_appender::non_blocking::NonBlockingBuilder;
 
-struct G { log: Vec<String>, permits: VecDeque<(char, bool)>, short: usize, cur: Vec<u8> }
+struct G { log: Vec<String>, permits: VecDeque<(char, bool)>, short: usize, cur: Vec<u8>, wb: bool }
 struct Shared { m: Mutex<G>, cv: Condvar }
 struct Gated(Arc<Shared>);
 
@@ -51,7 +51,10 @@ impl Write for Gated {
         };
         let whole = match whole { Some(w) => w, None => return Ok(take) };
         let id = String::from_utf8_lossy(&whole).trim().trim_start_matches('L').to_string();
-        if self.gate('w', format!("aw{}", id), &format!("w{}", id)) { Ok(take) } else { Err(io::Error::new(io::ErrorKind::Other, "scripted")) }
+        // a scripted failure of a line whose head the writer had already accepted (short writes) is, in every other case, the
+        // failure of a non-blocking pipe: `WouldBlock` (what was accepted stays written; the line is lost like any failed one)
+        let wb = self.0.m.lock().unwrap().wb;
+        if self.gate('w', format!("aw{}", id), &format!("w{}", id)) { Ok(take) } else { Err(io::Error::new(if wb { io::ErrorKind::WouldBlock } else { io::ErrorKind::Other }, "scripted")) }
     }
     fn flush(&mut self) -> io::Result<()> {
         if self.gate('f', "af".into(), "f") { Ok(()) } else { Err(io::Error::new(io::ErrorKind::Other, "scripted")) }
@@ -82,7 +85,7 @@ fn main() {
     // (the pacing of the underlying writer is a function of the script, so that the model needs no extra input: whole writes,
     //  or at most 1 / 2 bytes per call)
     let short = toks.len() % 3;
-    let sh = Arc::new(Shared { m: Mutex::new(G { log: Vec::new(), permits: VecDeque::new(), short, cur: Vec::new() }), cv: Condvar::new() });
+    let sh = Arc::new(Shared { m: Mutex::new(G { log: Vec::new(), permits: VecDeque::new(), short, cur: Vec::new(), wb: short > 0 && toks.len() % 2 == 0 }), cv: Condvar::new() });
     // the builder's options in either order, with or without a name for the worker thread (a function of the script)
     let b = match toks.len() % 4 {
         0 => NonBlockingBuilder::default().buffered_lines_limit(cap).lossy(lossy),
